@@ -1,0 +1,8 @@
+//go:build verif
+// +build verif
+
+package resolver
+
+// Thin wrapper (no logic) used by the verification harness in /verif (property C16).
+
+func VerifGlobstarToEscapedRegexp(glob string) (string, bool) { return globstarToEscapedRegexp(glob) }
